@@ -121,7 +121,20 @@ fn gen_scenario(r: &mut Rng, st: &mut GenSt) -> Vec<Vec<Vec<u8>>> {
     let c1 = pick(r, CONSUMERS); let c2 = pick(r, CONSUMERS);
     let cnt = |r: &mut Rng, cmd: &mut Vec<Vec<u8>>| { if r.chance(1, 2) { cmd.push(v(b"COUNT")); cmd.push(v(*r.pick(&[&b"1"[..], b"2", b"3", b"0", b"100"]))); } };
     let mut out = vec![];
-    match r.below(3) {
+    match r.below(4) {
+        3 => { // claim by another consumer, then the previous owner is deleted: the claimed entry stays pending for the claimer
+            let mut a = vec![v(b"XREADGROUP"), v(b"GROUP"), v(g), v(c1)]; cnt(r, &mut a); a.extend([v(b"STREAMS"), v(k), v(b">")]); out.push(a);
+            let mut a = vec![v(b"XCLAIM"), v(k), v(g), v(c2), v(b"0")]; for _ in 0..(1 + r.below(3)) { a.push(recent_id(r, st, k)); }
+            if r.chance(1, 4) { a.push(v(b"JUSTID")); } out.push(a);
+            out.push(vec![v(b"XPENDING"), v(k), v(g), v(b"-"), v(b"+"), v(b"100")]);
+            out.push(vec![v(b"XGROUP"), v(b"DELCONSUMER"), v(k), v(g), v(c1)]);
+            out.push(vec![v(b"XPENDING"), v(k), v(g)]);
+            out.push(vec![v(b"XPENDING"), v(k), v(g), v(b"-"), v(b"+"), v(b"100")]);
+            out.push(vec![v(b"XREADGROUP"), v(b"GROUP"), v(g), v(c2), v(b"STREAMS"), v(k), v(b"0")]);
+            let mut a = vec![v(b"XACK"), v(k), v(g)]; for _ in 0..(1 + r.below(3)) { a.push(recent_id(r, st, k)); } out.push(a);
+            out.push(vec![v(b"XPENDING"), v(k), v(g)]);
+            out.push(vec![v(b"XINFO"), v(b"CONSUMERS"), v(k), v(g)]);
+        }
         0 => { // own history
             let mut a = vec![v(b"XREADGROUP"), v(b"GROUP"), v(g), v(c1)]; cnt(r, &mut a); a.extend([v(b"STREAMS"), v(k), v(b">")]); out.push(a);
             for who in [c1, c2, c1] {
